@@ -145,7 +145,14 @@ def shards(tier):
     for mi in range(len(BOUNDS[tier]['big_models'])):
         for bi in range(len(BIG)):
             out.append({'big_model': mi, 'big': bi})
+    for spec in LONGRUN_MODELS:
+        out.append({'longrun': list(spec)})
+    for w in (1920, 2112):
+        out.append({'buildnet': w})
     return out
+
+
+LONGRUN_MODELS = [(2, 2, 16, 0, 'wide'), (3, 2, 16, 1, 'wide')]        # decoders with several layers, lines that run to the cap (160 steps)
 
 
 def run_shard(shard, ctx, tier):
@@ -158,6 +165,12 @@ def run_shard(shard, ctx, tier):
         for L in range(1, b['ro_depth'] + 1):
             for rest in itertools.product(range(len(RO_NAMES)), repeat=L - 1):
                 guarded_check(mod, {'model': list(spec), 'run_ocr': list(rest) + [shard['first']]}, ctx)
+        return
+    if 'longrun' in shard:
+        guarded_check(mod, {'longrun': shard['longrun']}, ctx)
+        return
+    if 'buildnet' in shard:
+        guarded_check(mod, {'buildnet': shard['buildnet']}, ctx)
         return
     if 'big_model' in shard:
         guarded_check(mod, {'model': list(b['big_models'][shard['big_model']]), 'big': shard['big']}, ctx)
@@ -290,8 +303,127 @@ def check_big(case, ctx):
     ctx.tag('batch-at-a-byte-boundary')
 
 
+def no_eos(net):
+    import torch
+    with torch.no_grad():
+        net.dec_out_proj.bias[SB] = -1e4            # the line never ends by itself: decoding runs into the length cap
+    return net
+
+
+def teacher_forced(net, img_u8, logits_row):
+    import torch
+    am = logits_row.argmax(axis=-1)
+    fed = [SB] + [int(x) for x in am[:len(am) - 1]]
+    with torch.no_grad():
+        ref = net(torch.from_numpy(img_u8.astype(np.float32)) / 255.0, torch.tensor([fed], dtype=torch.long))
+    return ref.numpy()[:, 0, :]
+
+
+def check_longrun(case, ctx):
+    """a 640 px line that runs to the length cap (160 steps) on decoders with 2-3 layers: recomputing every step == cached == teacher-forced"""
+    import contextlib
+    import io
+    import torch
+    spec = tuple(case['longrun'])
+    img = np.stack([line_image(77, 640)])
+    K = f'{ID}/long-run'
+    res = {}
+    with torch.no_grad(), contextlib.redirect_stdout(io.StringIO()), ctx.time_limit(300):
+        for cached in (False, True):
+            eng = make_engine(no_eos(copy.deepcopy(pristine(spec))))
+            outs, lg = eng.transcribe_batch(img.astype(np.float32), is_cached=cached)
+            res[cached] = lg.numpy()[0]
+        ref = teacher_forced(no_eos(copy.deepcopy(pristine(spec))), img, res[True])
+    ctx.executed(3)
+    ctx.state((spec, 'longrun'))
+    desc = f'model {spec}, one 640 px line that never emits the boundary symbol ({res[True].shape[0]} steps cached, {res[False].shape[0]} recomputed)'
+    cap = 640 // 4
+    for name, lg in (('cached', res[True]), ('recomputed', res[False])):
+        if not (cap <= lg.shape[0] <= cap + 2):
+            ctx.violation('decoding-terminates', f'{K}/{name}/step-count', f'{desc}: expected the cap of {cap} steps')
+            return
+    n = min(res[True].shape[0], res[False].shape[0])
+    d1 = np.abs(res[True][:n] - res[False][:n]).max(axis=-1)
+    d2 = np.abs(res[True] - ref[:res[True].shape[0]]).max(axis=-1)
+    if d1.max() > TOL:
+        ctx.violation('cached-equals-recomputed', f'{K}/cached-differs-from-recomputed',
+                      f'{desc}: scores differ by {float(d1.max()):.4g}, first at step {int(np.argmax(d1 > TOL))}')
+        return
+    if d2.max() > TOL:
+        ctx.violation('equals-teacher-forced-forward', f'{K}/cached-differs-from-teacher-forced-forward',
+                      f'{desc}: scores differ from TransformerOCR.forward by {float(d2.max()):.4g}, first at step {int(np.argmax(d2 > TOL))}')
+        return
+    ctx.outcome(('longrun', n))
+    ctx.nontrivial((spec, 'longrun'), 'line-running-to-a-cap-beyond-128-steps')
+
+
+class _StubConvEncoder:
+    pass
+
+
+def check_buildnet(case, ctx):
+    """the network as the engine builds it (transformer.build_net, only the convolutional front-end replaced) on the widest crops: a line that
+    never ends must be cut at the cap (width / 4 steps) and still equal the teacher-forced pass"""
+    import contextlib
+    import io
+    import unittest.mock
+    import torch
+    from pero_ocr.ocr_engine import transformer
+
+    class Frontend(torch.nn.Module):
+        def __init__(self, in_height, in_channels, out_channels, conv_subsampling=(8, 8)):
+            super().__init__()
+            self.conv = torch.nn.Conv2d(in_channels, out_channels, kernel_size=(in_height, 8), stride=(in_height, 8))
+            self.out_channels = out_channels
+
+        def forward(self, x):
+            return torch.tanh(self.conv(x) * 3.0)[:, :, 0, :]
+
+    W = case['buildnet']
+    cfg = {'dim_model': 16, 'dim_ff': 32, 'heads': 2, 'encoder_layers': 1, 'decoder_layers': 1, 'conv_subsampling': [8, 8]}
+    K = f'{ID}/build_net'
+    with contextlib.redirect_stdout(io.StringIO()), unittest.mock.patch.object(transformer, 'ConvolutionalEncoder', Frontend):
+        torch.manual_seed(4242)
+        net = transformer.build_net(cfg, H, 3, NCHAR)
+    with torch.no_grad():
+        for p_ in net.parameters():
+            if p_.dim() > 1:
+                p_.mul_(2.5)
+        net.dec_out_proj.bias.zero_()
+    net.eval()
+    no_eos(net)
+    img = np.stack([line_image(78, W)])
+    with torch.no_grad(), contextlib.redirect_stdout(io.StringIO()), ctx.time_limit(600):
+        eng = make_engine(net)
+        outs, lg = eng.transcribe_batch(img.astype(np.float32), is_cached=True)
+        lg = lg.numpy()[0]
+        for layer in net.trans_decoder.layers:
+            layer.memory_tgt = None
+            layer.self_attn.linear_cache = None
+            layer.multihead_attn.linear_cache = None
+        ref = teacher_forced(net, img, lg)
+    ctx.executed(2)
+    ctx.state(('buildnet', W))
+    cap = W // 4
+    desc = f'network from build_net({cfg}), one {W} px line that never emits the boundary symbol: {lg.shape[0]} steps'
+    if not (cap <= lg.shape[0] <= cap + 2):
+        ctx.violation('decoding-terminates', f'{K}/step-count', f'{desc}, expected the cap of {cap}')
+        return
+    d = np.abs(lg - ref[:lg.shape[0]]).max(axis=-1)
+    if d.max() > 10 * TOL:
+        ctx.violation('equals-teacher-forced-forward', f'{K}/cached-differs-from-teacher-forced-forward',
+                      f'{desc}: scores differ from TransformerOCR.forward by {float(d.max()):.4g}, first at step {int(np.argmax(d > 10 * TOL))}')
+        return
+    ctx.outcome(('buildnet', W, lg.shape[0]))
+    ctx.tag('network-from-build_net-on-the-widest-crops')
+
+
 def check_case(case, ctx):
     import torch
+    if 'longrun' in case:
+        return check_longrun(case, ctx)
+    if 'buildnet' in case:
+        return check_buildnet(case, ctx)
     if 'run_ocr' in case:
         return check_run_ocr(case, ctx)
     if 'big' in case:
@@ -398,7 +530,7 @@ def describe(tier):
         'alphabets': {'batches(width, line seeds)': BATCHES, 'events': len(EVENTS)},
         'assumptions': ['scores compared within 1e-4 (float32)', 'transcripts compared only when every deciding arg-max margin exceeds 1e-3'],
         'min_nontrivial': 50,
-        'required_tags': ['run_ocr-histories', 'run_ocr-narrower-batch-after-a-wider-one', 'batch-at-a-byte-boundary', 'lines-finish-at-different-steps', 'line-hit-the-length-cap', 'previous-batch-of-same-size-and-width',
+        'required_tags': ['network-from-build_net-on-the-widest-crops', 'run_ocr-histories', 'run_ocr-narrower-batch-after-a-wider-one', 'batch-at-a-byte-boundary', 'lines-finish-at-different-steps', 'line-hit-the-length-cap', 'previous-batch-of-same-size-and-width',
                           'previous-batch-of-same-size-other-width', 'cached-and-uncached-calls-mixed',
                           'line-finished-at-first-step-while-others-continue', 'ignore-symbol-emitted-mid-line'],
     }
